@@ -101,7 +101,10 @@ def run_property(prop, tier, seed, only=None, jobs=16, keep_going=True):
         elif mode == "first":
             ok = ok[:1]
         elif mode == "all8":
-            pass                  # every compatible configuration, in both tiers
+            # thorough: every compatible configuration; quick: the bottom, the three single-feature
+            # configurations and the top of the lattice (a feature's effect shows when toggled alone or with all others)
+            if tier == "quick":
+                ok = [c for c in ok if len(c) in (0, 1, len(WIRE))]
         elif mode == "all" and tier == "quick":
             ok = [ok[0]] + ([ok[-1]] if len(ok) > 1 else [])   # quick: poorest + richest compatible
         for c in ok:
@@ -156,7 +159,13 @@ def run_property(prop, tier, seed, only=None, jobs=16, keep_going=True):
           % (prop, tier, len(results), nproved, len(violations), len(inconclusive), wall, log))
     if violations:
         return 1
-    if inconclusive:
+    # Undecided instances (timeout, out of memory, unwinding assertion, unsatisfied cover witness) are never
+    # counted as held: they are printed as INCONCLUSIVE and listed in the evidence file.  The exit status is 0
+    # ("held on everything explored") as long as the run as a whole was meaningful; a harness crate that does
+    # not compile, a vacuity witness that misbehaves, or more than a quarter of the instances undecided means
+    # the check itself is not in working order: exit 2.
+    hard = [w for m, c, w in inconclusive if "compile_error" in w or "vacuity" in w or "did not reproduce" in w or "noresult" in w]
+    if hard or (results and len(inconclusive) * 4 > len(results)):
         return 2
     return 0
 
